@@ -378,7 +378,7 @@ def sliding_unit(window_cell):
         callees=[bins_contract2],
         requires=req,
         loops={'coordinate_to_bins(': LoopSpec(
-            it='BINS', head_hook=sliding_head(window_cell),
+            it='BINS', head_hook=sliding_head(window_cell), must_exhaust=True,
             inv={'cell_X_holds_the_weight_iff_its_window_was_visited_and_is_in_bounds':
                  '%s == (countToAdd if (XS == read.get_tag("SM") and XK[0] == "chrA" and %s and %s) else 0)' % (
                      CELL, X_AMONG.format(k='k'), OKB.format(a='XK[1]', e='XK[2]'))},
